@@ -186,8 +186,18 @@ Definition papply (i : N) (p : prim) (s : st) : st :=
   | PNodeDel n =>
     ibump k_next i (idel (k_node n) (ibump k_nodes i (s <| dt; nodes ::= delete n |>)))
   | PSvcPut n sid x =>
-    ibump (k_node n) i (ibump k_nodes i (ibump (k_svc (sv_name x)) i (ibump k_services i
-      (s <| dt; services ::= <[(n, sid) := x]> |>))))
+    let s1 := ibump (k_node n) i (ibump k_nodes i (ibump (k_svc (sv_name x)) i (ibump k_services i
+                (s <| dt; services ::= <[(n, sid) := x]> |>)))) in
+    (* ensureServiceTxn since 2c57fbe: the same id under another name leaves the old name, whose row is
+       bumped while instances remain and replaced by the extinction index otherwise *)
+    match services s !! (n, sid) with
+    | Some o =>
+      if bool_decide (sv_name o = sv_name x) then s1
+      else if bool_decide (svcs_named (sv_name o) s1 = ∅)
+           then ibump k_sext i (idel (k_svc (sv_name o)) s1)
+           else ibump (k_svc (sv_name o)) i s1
+    | None => s1
+    end
   | PSvcDel n sid =>
     match services s !! (n, sid) with
     | None => s
@@ -199,8 +209,18 @@ Definition papply (i : N) (p : prim) (s : st) : st :=
       else ibump (k_svc (sv_name x)) i s1
     end
   | PChkPut n cid x =>
-    let s1 := if bool_decide (c_svc x = "") then bump_names (names_of (svcs_of_node n s)) i s
-              else ibump (k_svc (c_svcname x)) i s in
+    (* ensureCheckTxn since e956cb5: a check that leaves its service (another ServiceID) bumps the
+       service it leaves, under the name the check row carries (all services of the node when it was
+       node-level) *)
+    let s0 := match checks s !! (n, cid) with
+              | Some o =>
+                if bool_decide (c_svc o = c_svc x) then s
+                else if bool_decide (c_svc o = "") then bump_names (names_of (svcs_of_node n s)) i s
+                     else ibump (k_svc (c_svcname o)) i s
+              | None => s
+              end in
+    let s1 := if bool_decide (c_svc x = "") then bump_names (names_of (svcs_of_node n s0)) i s0
+              else ibump (k_svc (c_svcname x)) i s0 in
     ibump k_checks i (s1 <| dt; checks ::= <[(n, cid) := x]> |>)
   | PChkDel n cid =>
     match checks s !! (n, cid) with
@@ -208,7 +228,13 @@ Definition papply (i : N) (p : prim) (s : st) : st :=
     | Some x =>
       let s1 := if bool_decide (c_svc x = "")
                 then ibump k_services i (bump_names (names_of (svcs_of_node n s)) i s)
-                else ibump (k_svc (c_svcname x)) i s in
+                else
+                  (* since 566301e: also the CURRENT name of the check's service *)
+                  let s2 := ibump (k_svc (c_svcname x)) i s in
+                  match services s !! (n, c_svc x) with
+                  | Some sv => if bool_decide (sv_name sv = c_svcname x) then s2 else ibump (k_svc (sv_name sv)) i s2
+                  | None => s2
+                  end in
       ibump k_checks i (s1 <| dt; checks ::= delete (n, cid) |>)
     end
   | PBumpSvc name => ibump (k_svc name) i s
